@@ -21,6 +21,21 @@ CHECKS = {
  'C14': ('exploration', 'hx', 'strict reference parser + independent digest recomputation over records written under generated YAML configurations',
          'Every record written by add/update (incl. same-password rewrites of back-dated records, default switches) under hundreds of generated YAML parameter sets is parsed strictly and its digest recomputed with x/crypto primitives directly from the YAML values; salt sizes, salt reuse across the whole run, timestamp brackets, base64 form and absence of passwords / HMAC keys from the directory are monitored.',
          'Trusts x/crypto scrypt/argon2 and crypto/hmac as the independent implementation.', '5 C14'),
+ 'C03': ('exploration', 'hx+sctrace', 'whole-tree snapshot monitor around every call with hostile names; syscall path monitor (strace) over a driver process',
+         'Every hostile user name of a generated corpus is passed to every store entry point on a sandbox with a sibling store and decoys; results must be failures and whole-tree snapshots (content, type, mode, inode) must be identical; planted invalid-named files with valid hashes must never list, authenticate or count as the required admin; a control group of valid names must keep working.',
+         'Trusts the snapshot walker and the grammar implementation in go/ref; paths reached through symlinks are not in the sandbox.', '5 C03'),
+ 'C07': ('exploration', 'ovl', 'in-package monitor with an issued-token table and a lenient reference decoder; race detector',
+         'Every single-bit flip, character substitution, truncation, extension and splice of issued tokens, other-instance tokens and chosen plaintexts sealed with the factory key are presented; acceptance is allowed only for decoded content equal to an issued (nonce, ciphertext) pair and must return the issued identity; nonce uniqueness over 10^5..2*10^6 sequential plus 16-way concurrent issuances under -race.',
+         'Not a cryptographic argument about AES-GCM; time-window cases keep a 3 s margin and are re-run on clock stalls.', '5 C07'),
+ 'C10': ('exploration', 'ovl', 'bounded-progress monitor with goroutine-dump analysis proving a permanent block; delay failpoints; race detector',
+         'Mixed request load from 4-64 clients over all upgrade modes (off/local/remote healthy, unreachable, stalled), hook directories with hanging scripts, all frontends; the monitor requires every request to return and a probe per request channel afterwards, and reports a violation only when two goroutine dumps prove the dispatcher blocked at the same place. Queue-occupancy histogram at upgrade enqueue shows the risky state (queue full) was reached.',
+         'Liveness restated as bounded progress; schedules are steered, not enumerated.', '5 C10'),
+ 'C11': ('exploration', 'ovl', 'porcupine linearizability check of client-boundary histories against a sequential store model; final-state conservation checks; race detector',
+         'Hundreds to thousands of short concurrent histories with unique written values, recorded at the client boundary over all frontends, with sequential final reads after a FIFO barrier, are checked with porcupine (partitioned by user); the final directory must match the linearized state; 64-way cross-talk phase; all under -race with varied dispatcher failpoints. Evidence counts histories in which an upgrade executed after a later update (the harmful pattern).',
+         'Trusts porcupine v1.3.0 and the sequential model; checker timeouts are inconclusive.', '5 C11'),
+ 'C18': ('exploration', 'hx+ovl', 'must-accept/must-reject predicates over structurally mutated YAML; accepted sets exercised (hash+verify); reload monitor',
+         'Hundreds of YAML documents derived from valid configurations by field deletion, duplication, type change, unknown keys and numeric edges are loaded; the verdict must match the rule the generator broke, and every accepted parameter set must hash-and-verify or fail with an error (panic/hang = violation).',
+         'Parameter values needing > 256 MiB or unbounded time are not generated; duplicate ids unasserted.', '5 C18'),
 }
 
 def main():
